@@ -158,6 +158,50 @@ def build_programs(names: tuple) -> list[list[tuple]]:
     return [[alphabet(ti)[n] for n in prog] for ti, prog in enumerate(names)]
 
 
+def _res_sig(r: Any) -> str:
+    """Coarse, deterministic class of one call's result: error type, small scalars verbatim, and for
+    results carrying trials the (state, has values, has completion time) triple of every trial in
+    order. Used to tell apart different anomalies of one program pair (known findings name them)."""
+    if r[0] == "err":
+        return "err:" + str(r[1])
+    v = r[1]
+    if v is None or isinstance(v, (bool, int, float, str)):
+        return repr(v)
+    found: list[str] = []
+
+    def walk(x: Any) -> None:
+        if isinstance(x, (tuple, list)):
+            if len(x) == 2 and x[0] == "state" and isinstance(x[1], str):
+                found.append(x[1][0])
+                return
+            if len(x) == 2 and x[0] == "values":
+                found.append("v" if _nonempty(x[1]) else "-")
+                return
+            if len(x) == 2 and x[0] == "dt_complete":
+                found.append("c" if x[1] is not None else "-")
+                return
+            for y in x:
+                walk(y)
+
+    def _nonempty(x: Any) -> bool:
+        if x is None:
+            return False
+        if isinstance(x, (tuple, list)):
+            return any(_nonempty(y) or isinstance(y, (int, float)) and not isinstance(y, bool) for y in x if y not in ("l", "d"))
+        return isinstance(x, (int, float)) and not isinstance(x, bool)
+
+    walk(v)
+    return "".join(found) if found else "obj"
+
+
+def anomaly_sig(names: tuple, ex: dict) -> str:
+    parts = []
+    for ti, k, _, _, r in sorted(ex["hist"], key=lambda h: (names[h[0]][h[1]], h[0], h[1])):
+        parts.append(f"{names[ti][k]}={_res_sig(r)}")
+    parts.append("final=" + _res_sig(("ok", ex["final"])))
+    return ",".join(parts)
+
+
 def scenario_task(task: tuple) -> dict:
     cfg, names, bound = task[:3]
     shard = task[3] if len(task) > 3 else None
@@ -222,6 +266,10 @@ def scenario_task(task: tuple) -> dict:
         ok, w = sc.linearizable(ex)
         if not ok:
             key = f"{engine}|{cfg}|not-linearizable|{'+'.join('/'.join(p) for p in sorted(names))}"
+            if engine == "procx-sql":
+                # the SQLite part has open known findings: name the anomaly, so that a different
+                # anomaly of the same program pair is still reported
+                key += "|" + anomaly_sig(names, ex)
             part.violation(key, rep)
 
     st = explore(sc.execute, bound, on_exec, cache_states=cache, max_execs=60000, shard=shard)
